@@ -6,6 +6,7 @@ import glob
 import warnings
 import io
 import json
+import re
 import os
 import tempfile
 import tokenize
@@ -41,14 +42,14 @@ CORE = [
  "match x:\n    case [a, *b]:\n        pass\n    case {'k': v, **r}:\n        pass\n    case A(b, c=1) | None:\n        pass\n    case _ if y:\n        pass\n",
  "x[a:b, ::2, ...]\n", "x = a[*b]\n", "x = not a or b and c\n", "x = a < b <= c != d is not e not in f\n", "x = -a ** +b // ~c\n", "x = a | b ^ c & d << e >> f\n",
  "x = (y := 1)\n", "x = (yield a)\n", "def g():\n    x = yield from a\n", "global a, b\n", "nonlocal a\n", "assert a, b\n", "raise A from b\n", "return\n", "return *a, b\n",
- "x = 'a' 'b' f'{c!r:>{d}}'\n", "x = f'{a}{b=}'\n", "x = b'a' b'b'\n", "x = 1j + 0x1f + 1_0.5e3\n", "x = (1,)\n", "x = ()\n", "x = []\n", "x = {}\n",
+ "x = 'a' 'b' f'{c!r:>{d}}'\n", "x = rb'a' Rb'b' b'c'\n", "x = f'{y!r}' f'{z!s}{w!a}'\n", "x = f'{a}{b=}'\n", "x = b'a' b'b'\n", "x = 1j + 0x1f + 1_0.5e3\n", "x = (1,)\n", "x = ()\n", "x = []\n", "x = {}\n",
  "print(*a, sep='')\n", "a = yield\n", "for a in b, c:\n    pass\n", "async with a as b:\n    pass\n", "async for a in b:\n    pass\n", "x = [*a, *b]\n",
  "f(**a, **b)\n", "f(k=1, **o)\n", "f(*a, k=1)\n", "f(a, b for b in c)\n".replace("a, b for b in c", "(b for b in c), a"),
  "match x:\n    case 1 + 2j:\n        pass\n    case -3 - 1j | 'a' | None:\n        pass\n    case {0 + 1j: y, 'k': [1, *_]}:\n        pass\n",
  "match x, y:\n    case (a, b) as c if c:\n        pass\n    case a.b | str(z):\n        pass\n",
  "x = a @ b\n", "pass; pass\n", "x: list[int] = []\n", "type X = int\n", "def f[T](a: T) -> T:\n    return a\n", "class A[T]:\n    pass\n",
 ]
-REPL = ["=", ")", "(", "1", "x", "else", "**", "*", ",", ":", "in", "as", ".", "2.5", "'s'", "None", "not"]
+REPL = ["=", ")", "(", "1", "x", "else", "**", "*", ",", ":", "in", "as", ".", "2.5", "'s'", "None", "not", "sr", "NEWLINE"]
 # multi-token phrases inserted after every token (the comprehension tail, a conditional tail, an annotation, ...)
 PHRASES = ["for q in r", "if q else r", ": int", "= 1", "as q", "not in q", "lambda: 0", "*a, **k", "for q in r if q", ":= 1"]
 def sweep(src):
@@ -266,6 +267,9 @@ def run(chk: common.Check, tier: str):
             if a[0] == "tree" and host is not None:
                 if host[0] == "ok":
                     chk.bump("host: accepts as well")
+                elif host[0] == "rej" and re.search(r"(NEWLINE|INDENT|DEDENT|ENDMARKER)", src) and \
+                        any(kf.get("id") == "C07-name-spelled-like-layout-token" for kf in kfs):
+                    seen_known.add("C07-name-spelled-like-layout-token")
                 elif host[0] == "rej":
                     chk.violation(f"the generated Python parser accepts a program that the host interpreter's parser rejects "
                                   f"({host[1]}, line {host[2]})",
